@@ -5,13 +5,15 @@ package dbSync
 //vf:job C19 quick VF_C19_SyncStart resume=0..1
 //vf:job C19 quick VF_C19_StatusAndSafeOptions
 //vf:job C19 quick VF_C19_Supervisor
-//vf:replayE C19 VF_C19_SyncStart VF_C19_StatusAndSafeOptions VF_C19_Supervisor
+//vf:job C19 quick VF_C19_AuthEcho resume=0..1
+//vf:replayE C19 VF_C19_SyncStart VF_C19_StatusAndSafeOptions VF_C19_Supervisor VF_C19_AuthEcho
 //vf:stub C19 log.*: every call is rendered with a model of fmt (%v/%s/%d/%+v traversal: top-level pointer-to-struct followed, nested pointers not, Error/String methods executed) and each rendered line is checked; sendPSyncCmd, checkpoint loading and the metric registry are stubbed (the run is cut after the start-up logging)
 //vf:assume C19 information flow is decided per output string s: the two passwords are unconstrained symbolic 6-byte strings and a leak is reported iff for EVERY password value s contains it (an occurrence for one particular value only is a coincidence, not a flow)
 //vf:outside C19 main (startup configuration echo: the package does not type-check), the HTTP layer, log file handling, third-party libraries' own logging
 
 import (
 	"errors"
+	"net"
 	"time"
 
 	"github.com/alibaba/RedisShake/pkg/libs/io/pipe"
@@ -95,12 +97,12 @@ func VF_C19_StatusAndSafeOptions() {
 
 type vfInfoConn struct{ reply string }
 
-func (c *vfInfoConn) Close() error                                             { return nil }
-func (c *vfInfoConn) Err() error                                               { return nil }
+func (c *vfInfoConn) Close() error                                            { return nil }
+func (c *vfInfoConn) Err() error                                              { return nil }
 func (c *vfInfoConn) Do(cmd string, args ...interface{}) (interface{}, error) { return c.reply, nil }
 func (c *vfInfoConn) Send(string, ...interface{}) error                       { return nil }
-func (c *vfInfoConn) Flush() error                                             { return nil }
-func (c *vfInfoConn) Receive() (interface{}, error)                            { return nil, nil }
+func (c *vfInfoConn) Flush() error                                            { return nil }
+func (c *vfInfoConn) Receive() (interface{}, error)                           { return nil, nil }
 
 // topology discovery at sync start (cluster source): supervisor logging with every outcome
 func VF_C19_Supervisor() {
@@ -131,4 +133,71 @@ func VF_C19_Supervisor() {
 	vfNoExpectAbort()
 	vfAssert(outcome == 0, "sync continued although no master was found")
 	vfAssertTwin(err != nil, "twin")
+}
+
+// a server that does not know the configured auth command answers with an error that echoes the
+// command's arguments (stock Redis: "unknown command `adminauth`, with args beginning with: `<password>`");
+// whatever the tool does with that reply, the password must not reach a log line
+type vfEchoConn struct {
+	replies [][]byte
+	next    int
+	written [][]byte
+}
+
+func (c *vfEchoConn) Read(p []byte) (int, error) {
+	if c.next >= len(c.replies) {
+		return 0, errors.New("vf: connection closed by peer")
+	}
+	r := c.replies[c.next]
+	n := copy(p, r)
+	if n < len(r) {
+		c.replies[c.next] = r[n:]
+	} else {
+		c.next++
+	}
+	return n, nil
+}
+func (c *vfEchoConn) Write(p []byte) (int, error) {
+	c.written = append(c.written, append([]byte{}, p...))
+	return len(p), nil
+}
+func (c *vfEchoConn) Close() error                       { return nil }
+func (c *vfEchoConn) LocalAddr() net.Addr                { return vfAddr{} }
+func (c *vfEchoConn) RemoteAddr() net.Addr               { return vfAddr{} }
+func (c *vfEchoConn) SetDeadline(t time.Time) error      { return nil }
+func (c *vfEchoConn) SetReadDeadline(t time.Time) error  { return nil }
+func (c *vfEchoConn) SetWriteDeadline(t time.Time) error { return nil }
+
+func VF_C19_AuthEcho() {
+	vfStubEnv()
+	ps, pt := vfSecrets()
+	for i := 0; i < len(ps); i++ {
+		// lower-case letters: the reply is scanned for CR LF and upper-cased byte by byte, any other alphabet only multiplies the paths
+		vfAssume(ps[i] >= 'a')
+		vfAssume(ps[i] <= 'z')
+	}
+	conf.Options.SourceType = "standalone"
+	conf.Options.SourceAuthType = "adminauth"
+	conf.Options.SourceTLSEnable = false
+	conf.Options.ResumeFromBreakPoint = vfParam("resume", 0) == 1
+	conf.Options.Metric = false
+	conf.Options.HttpProfile = 0
+	vfStub("github.com/alibaba/RedisShake/redis-shake/metric.AddMetric", func(id int) {})
+	vfStub("github.com/alibaba/RedisShake/redis-shake/checkpoint.LoadCheckpoint",
+		func(id int, src string, target []string, authType, passwd, name string, isCluster, tls bool) (string, int64, int, error) {
+			return "rid", 10, 0, nil
+		})
+	dials := 0
+	vfStub("(*net.Dialer).Dial", func(d *net.Dialer, network, address string) (net.Conn, error) {
+		dials++
+		if dials > 1 {
+			vfPark()
+		}
+		echo := append(append([]byte("-ERR unknown command `adminauth`, with args beginning with: `"), ps...), []byte("`, \r\n")...)
+		return &vfEchoConn{replies: [][]byte{echo, []byte("+OK\r\n")}}, nil
+	})
+	ds := NewDbSyncer(vfNode(ps, pt), 9320, semaphore.NewWeighted(1))
+	ds.Sync()
+	vfAssert(vfLogCount() > 0, "no log line was produced (vacuous)")
+	vfAssertTwin(dials == 0, "twin")
 }
